@@ -82,7 +82,10 @@ struct Universe {
 
 fn branch_spec(branch: u8, height: u64, uncle: Option<&BlockView>) -> BlockSpec {
     let mut proposals = vec![pid(branch, height, 0)];
-    if height % 3 == 0 {
+    // the shared id is proposed again and again: every third height, and at heights 1, 5, 9 (with
+    // the window 2..4 the proposal of height h expires exactly when the block of height h+4 -
+    // which proposes it again - becomes the tip: the id leaves the set and enters the gap at once)
+    if height % 3 == 0 || height % 4 == 1 {
         proposals.push(shared_id());
     }
     BlockSpec { proposals, uncles: uncle.map(|u| vec![u.as_uncle()]).unwrap_or_default(), ts_offset: branch as u64, miner: branch, ..Default::default() }
@@ -169,6 +172,8 @@ fn run_case(ctx: &Ctx, cons: &Consensus, u: &Universe, case: &Case, idx: u64) ->
     }
     let mut reorged = false;
     let mut prev_tip = node.tip().hash();
+    let _ = ckb_chain::verif::take_detached_proposals();
+    let mut prev_want_set: BTreeSet<Vec<u8>> = BTreeSet::new();
     for (si, (name, blk)) in steps.iter().enumerate() {
         report.transitions += 1;
         match blk {
@@ -198,6 +203,24 @@ fn run_case(ctx: &Ctx, cons: &Consensus, u: &Universe, case: &Case, idx: u64) ->
                 json!({"family": "view", "case": case, "step": si}),
             );
         }
+        // the ids reported as dropped by this tip change: exactly those that left the committable set
+        if let Some(dropped) = ckb_chain::verif::take_detached_proposals() {
+            let got: BTreeSet<Vec<u8>> = dropped.iter().map(|p| p.as_slice().to_vec()).collect();
+            let want: BTreeSet<Vec<u8>> = prev_want_set.difference(&want_set).cloned().collect();
+            if got != want {
+                report.violation(
+                    "dropped-ids",
+                    format!("after {name} (tip {}): reported as dropped {:?}; left the committable set {:?} (previous set {:?}, new set {:?}, new gap {:?})", tip.number(), names(&got), names(&want), names(&prev_want_set), names(&want_set), names(&want_gap)),
+                    json!({"family": "view", "case": case, "step": si}),
+                );
+            } else if !want.is_empty() {
+                report.count("tip_changes_with_dropped_ids", 1);
+                if want.iter().any(|i| want_gap.contains(i)) {
+                    report.count("dropped_ids_that_are_in_the_new_gap", 1);
+                }
+            }
+        }
+        prev_want_set = want_set.clone();
         report.states.insert(fp(&(case.window, tip.hash().as_slice().to_vec(), &set, &gap)));
         report.outcomes.insert(fp(&(&set, &gap)));
         if case.restart_every_step {
@@ -345,7 +368,7 @@ pub fn meta(tier: Tier) -> Meta {
         id: "C20",
         level: "model_checking",
         rule: "view family: case = (proposal window, main chain length LA, competing branch forking d in 0..=far+2 blocks below the tip and overtaking by 1 or 2, optional truncation, restart after every step or not); unique proposal ids per block + one repeated id + uncle proposals; after every step snapshot.proposals() (incremental, and rebuilt after a real shutdown/re-open) is compared with the union computed from the raw blocks of the main chain. edge family: a real tx proposed by a block or only by an uncle, committed at every distance 1..=far+2: node view, verifier verdict and the window rule must agree. non-trivial = history contained a reorg (view) / every edge case.",
-        assumptions: &["flat world", "the ids reported as dropped (detached_proposal_id) are not observed directly in this check", "chain-only node (no tx-pool service) so that the database can be re-opened in-process"],
+        assumptions: &["flat world", "chain-only node (no tx-pool service) so that the database can be re-opened in-process"],
         bounds: json!({"windows": [[2,4],[1,3]], "max_main_chain": if tier.is_thorough() { 10 } else { 7 }, "fork_depths": "0..=far+2", "edge_distances": "1..=far+2, via block and via uncle"}),
     }
 }
